@@ -739,5 +739,54 @@ pub fn all() -> Vec<Witness> {
             case: case_of(main, procs, b"", vec![]),
         });
     }
+    // ---- RESUME label out of a subprogram ----
+    {
+        let mut b = B(0);
+        let s1 = vec![b.s(StmtKind::Fail(FailKind::DivZero)), b.trace("in sub")];
+        let guard_id = {
+            b.0 += 1;
+            b.0
+        };
+        let main = vec![
+            b.s(StmtKind::OnErrorGoto("H1".into())),
+            b.s(StmtKind::CallSub {
+                name: "S1".into(),
+                args: vec![int(1)],
+            }),
+            b.trace("not here"),
+            b.s(StmtKind::Label("RL1".into())),
+            Stmt {
+                id: guard_id,
+                kind: StmtKind::IfLine {
+                    cond: Expr::Cmp(CmpOp::Lt, bx(var("G4%")), bx(int(2))),
+                    then_s: Box::new(b.s(StmtKind::Fail(FailKind::Subscript))),
+                    else_s: None,
+                },
+            },
+            b.print(Dev::Screen, vec![e(lit("T")), PItem::Semi, e(var("G4%"))]),
+            b.s(StmtKind::End),
+            b.s(StmtKind::Label("H1".into())),
+            b.s(StmtKind::Assign {
+                var: "G4%".into(),
+                expr: Expr::Add(bx(var("G4%")), bx(int(1))),
+            }),
+            b.s(StmtKind::Resume(ResumeKind::Label("RL1".into()))),
+        ];
+        let procs = vec![Proc {
+            name: "S1".into(),
+            is_function: false,
+            params: vec!["P1%".into()],
+            body: s1,
+            is_static: false,
+        }];
+        out.push(Witness {
+            name: "fixed-resume-label-out-of-subprogram",
+            property: "C08",
+            class: "Internal",
+            key: "",
+            what: "RESUME label after an error raised inside a SUB left the SUB's context current: the main module read its array as a plain variable ('Expected array, found VInteger(0)' panic)",
+            case: case_of(main, procs, b"", vec![]),
+        });
+    }
     out
 }
